@@ -92,7 +92,7 @@ class CurveF(Family):
             kv = list(o.knotvector)
             r = {"kv": kv, "single": [o.evaluate_single(u) for u in c["us"]], "list": o.evaluate_list(c["us"]),
                  "d0": [o.derivatives(u, 0)[0] for u in c["us"]]}
-            if c["normalize"]:
+            if True:   # every knot range (the sample-size derivation was repaired in /repo 2a3e060)
                 o.sample_size = c["sample"]
                 r["evalpts"] = [list(x) for x in o.evalpts]
                 r["sample_size"] = o.sample_size
@@ -195,7 +195,7 @@ class SurfaceF(Family):
                  "single": [o.evaluate_single(tuple(uv)) for uv in c["uvs"]],
                  "list": o.evaluate_list([tuple(uv) for uv in c["uvs"]]),
                  "d0": [o.derivatives(uv[0], uv[1], 0)[0][0] for uv in c["uvs"]]}
-            if c["normalize"]:
+            if True:   # every knot range (the sample-size derivation was repaired in /repo 2a3e060)
                 o.sample_size_u, o.sample_size_v = c["sample"]
                 r["evalpts"] = [list(x) for x in o.evalpts]
                 r["sample_size"] = [o.sample_size_u, o.sample_size_v]
@@ -307,7 +307,7 @@ class VolumeF(Family):
             r = {"kvu": list(o.knotvector_u), "kvv": list(o.knotvector_v), "kvw": list(o.knotvector_w),
                  "single": [o.evaluate_single(tuple(x)) for x in c["uvws"]],
                  "list": o.evaluate_list([tuple(x) for x in c["uvws"]])}
-            if c["normalize"]:
+            if True:   # every knot range (the sample-size derivation was repaired in /repo 2a3e060)
                 o.sample_size_u, o.sample_size_v, o.sample_size_w = c["sample"]
                 r["evalpts"] = [list(x) for x in o.evalpts]
             return r
